@@ -90,15 +90,73 @@ def body_tokens(src, fn):
     return lex(src[fn.body_start:fn.body_end])
 
 
+def eliminate_guard_returns(text):
+    """`{ ... if C { return E; } REST }`  ->  `{ ... if C { E } else { REST } }` for guard returns that are statements of the
+    function's top-level block (the only early-exit shape that has a direct expression form). Anything else is left alone
+    (and then rejected by the caller)."""
+    toks = lex(text)
+    sigi = [k for k, t in enumerate(toks) if t.kind not in ('ws', 'lcomment', 'bcomment')]
+    if not sigi or toks[sigi[0]].text != '{':
+        return text
+    from .rustlex import match_close
+    # walk the statements of the top-level block
+    depth = 0
+    x = 1
+    stmt_start = True
+    while x < len(sigi) - 1:
+        t = toks[sigi[x]]
+        if stmt_start and t.kind == 'id' and t.text == 'if':
+            # find the block of this `if`
+            y = x + 1
+            while y < len(sigi) and toks[sigi[y]].text != '{':
+                if toks[sigi[y]].text in ('(', '['):
+                    y = sigi.index(match_close(toks, sigi[y]))
+                y += 1
+            if y >= len(sigi):
+                return text
+            kclose = match_close(toks, sigi[y])
+            yc = sigi.index(kclose)
+            inner = [toks[sigi[z]] for z in range(y + 1, yc)]
+            after = toks[sigi[yc + 1]].text if yc + 1 < len(sigi) else ''
+            if inner and inner[0].text == 'return' and inner[-1].text == ';' and after != 'else' \
+                    and not any(tt.kind == 'id' and tt.text == 'return' for tt in inner[1:]):
+                ret_tok = inner[0]
+                semi_tok = inner[-1]
+                end_tok = toks[sigi[-1]]      # the closing brace of the function body
+                head = text[:ret_tok.pos]
+                expr = text[ret_tok.pos + len('return'):semi_tok.pos]
+                rest = text[toks[kclose].pos + 1:end_tok.pos]
+                new = head + expr + text[semi_tok.pos + 1:toks[kclose].pos + 1] + ' else {' + rest + '}' + text[end_tok.pos:]
+                # the rest may contain further guard returns: it is now a block of its own
+                k0 = len(head + expr + text[semi_tok.pos + 1:toks[kclose].pos + 1] + ' else ')
+                sub = eliminate_guard_returns(new[k0:k0 + len(rest) + 2])
+                return new[:k0] + sub + new[k0 + len(rest) + 2:]
+            x = yc + 1
+            stmt_start = toks[sigi[x]].text != 'else' if x < len(sigi) else True
+            continue
+        if t.text in ('{', '(', '['):
+            x = sigi.index(match_close(toks, sigi[x])) + 1
+            stmt_start = True if t.text == '{' else False
+            continue
+        stmt_start = t.text == ';'
+        x += 1
+    return text
+
+
 def derive_layout_copy(src, fn, helpers=()):
     """spec copy of a map_keycode body: `.map_keycode(` -> `.spec_map(`, `<int>.into()` -> `(<int>u8 as char)`"""
-    toks = body_tokens(src, fn)
+    body_text = src[fn.body_start:fn.body_end]
+    if re.search(r'\breturn\b', body_text):
+        body_text = eliminate_guard_returns(body_text)
+    toks = lex(body_text)
     sigi = [k for k, t in enumerate(toks) if t.kind not in ('ws', 'lcomment', 'bcomment')]
     out = [t.text for t in toks]
     n_into = n_call = 0
     for x, k in enumerate(sigi):
         t = toks[k]
-        if t.kind == 'id' and t.text == 'map_keycode' and x > 0 and toks[sigi[x - 1]].text == '.':
+        if t.kind == 'id' and t.text == 'map_keycode' and x > 0 and toks[sigi[x - 1]].text in ('.', ':') \
+                and x + 1 < len(sigi) and toks[sigi[x + 1]].text == '(':
+            # method call `x.map_keycode(..)` or fully qualified `<T as KeyboardLayout>::map_keycode(..)` / `T::map_keycode(..)`
             out[k] = 'spec_map'
             n_call += 1
         if t.kind == 'id' and t.text in helpers and x + 1 < len(sigi) and toks[sigi[x + 1]].text == '(':
